@@ -13,6 +13,9 @@ import z3
 CONCRETE = {'on': False, 'values': {}, 'seed': 0}
 
 
+NOISY_MEAN = {'on': False, 'assume': []}
+
+
 def set_concrete(on, values=None, seed=0):
   CONCRETE['on'], CONCRETE['values'], CONCRETE['seed'] = on, dict(values or {}), seed
 
@@ -410,6 +413,20 @@ class A:
     return self._reduce(f, axis, keepdims, where)
 
   def mean(self, axis=None, keepdims=False, where=None, dtype=None):
+    if NOISY_MEAN['on']:
+      # round-off model: a rounded mean is an ARBITRARY real, except that rounding is
+      # sign preserving (a mean of non-negative numbers is non-negative, ...)
+      def g(items):
+        k = len(NOISY_MEAN['assume'])
+        r = z3.Real('rmean%d' % k)
+        vals = [(_num(x.t), None if w is None else w.t) for x, w in items]
+        nn_ = z3.And([v >= 0 if w is None else z3.Implies(w, v >= 0) for v, w in vals])
+        np_ = z3.And([v <= 0 if w is None else z3.Implies(w, v <= 0) for v, w in vals])
+        NOISY_MEAN['assume'].append(z3.And(z3.Implies(nn_, r >= 0),
+                                           z3.Implies(np_, r <= 0)))
+        return S(r)
+      return self._reduce(g, axis, keepdims, where)
+
     def f(items):
       tot, cnt = S(0), S(0)
       for x, w in items:
